@@ -3,7 +3,7 @@ import Goflow.Conc.Receiver
 namespace Goflow.Gen.C17
 open Goflow Goflow.Gen
 
-def expectLine : String := "expect res ok dup=0 both=0 corrupt=0 unaccounted=0 blockingdrops=0 stop=ok leak=0 rebind=1"
+def expectLine : String := "expect res ok dup=0 both=0 corrupt=0 unaccounted=0 blockingdrops=0 stop=ok leak=0 rebind=1 errsrc=0"
 
 def gen (k : Nat) : G (List String) := do
   let mut out : List String := []
